@@ -52,7 +52,8 @@ def fn(ctype, params, cxx, py, declared=None, **kw):
     return d
 
 
-CTYPE_KIND = {"double": "float", "float": "float", "int": "int", "bool": "bool", "unsigned int": "int", "short": "int", "long": "int"}
+CTYPE_KIND = {"double": "float", "float": "float", "int": "int", "bool": "bool", "unsigned int": "int", "short": "int", "long": "int",
+              "unsigned long long": "int", "long long": "int", "unsigned short": "int", "unsigned long": "int"}
 
 
 def py_kind(ctype: str) -> str:
